@@ -11,6 +11,25 @@ CHECKS = {
   text="Every identifier in the structured subsets (<=2 bits set, <=3 non-zero boundary bytes, powers of 62 and neighbours, every leading-zero count, top of range) renders to 22 pattern-conforming characters and parses back; renderings are pairwise distinct; every string of length <=3 over a 12-character alphabet plus overflow/long strings is parsed without panic and never accepted with a value >= 2^128; NewHash is equal across calls and across processes. Bounded: the 2^128 space is covered on boundary families only.",
   note="math/big, crypto/sha1, regexp trusted; values outside the enumerated families rest on the stated arithmetic argument",
   design="3/C20"),
+
+ "C11": dict(
+  engine="E1",
+  technique=TECH_E1 + "; all lexical-symbol sequences up to a length bound plus all single-chunk mutations of fixtures, both parser modes, hang watchdog",
+  text="Every concatenation of <=4 (quick) / <=5 (thorough) symbols of a 40-symbol lexical alphabet (identifiers incl. non-ASCII, numbers, every string/regex/comment/description form incl. unterminated ones, every operator, NUL, CR, 4-byte rune) and every single-chunk deletion, truncation, adjacent swap and alphabet insertion of the repository's BCL fixtures is parsed in fail-fast and collect-all mode: no panic, no hang, (tree,nil) xor non-empty diagnostics, every diagnostic and every tree node span (reflective walk, unexported fields included) lies inside the input with start<=end, first collect-all diagnostic equals the fail-fast one, HumanString does not fail.",
+  note="termination decided by a 120 s progress watchdog per few-byte input, not a proof; inputs longer than the bound / other runes not covered",
+  design="3/C11"),
+ "C09": dict(
+  engine="E1",
+  technique=TECH_E1 + "; all token sequences / small files / literal characters / description blocks, oracle = position-free AST equivalence + re-parse + idempotence",
+  text="For every source in the enumerated space that the parser accepts (all lines of <=5/6 symbols over a 27-symbol literal-rich alphabet; all files of <=3/4 lines over 24 statement representatives x 3 indentations; every ASCII and 10 non-ASCII characters in string/regex/comment/description positions; all description blocks of <=5/7 lines; width-boundary families; fixtures and their single-chunk deletions): Fmt succeeds, its output parses, the position-free tree (types, tags, marks, qualifiers, keys, operators, literal kinds and values, attached comments, descriptions as paragraphs of words) and the ordered comment tokens are unchanged, and Fmt(Fmt(x)) == Fmt(x).",
+  note="tree equivalence is the explicit dump in harness/bcl/bgen/tree.go; larger files and other runes are outside the bound",
+  design="3/C09"),
+ "C19": dict(
+  engine="E1",
+  technique=TECH_E1 + "; same source space as C09 plus layout families; oracle = edits well-formed, applied edits == Fmt, LSP edits == FmtDiffs",
+  text="For every source in C09's space plus layout families (trailing comments, several statements per line, multi-line tokens, blank runs) that the formatter accepts: FmtDiffs returns without failure; edits ascending, non-overlapping, 0<=from<=to<=#lines; applying them bottom-up to the line array equals Fmt(source) modulo trailing blank lines; the LSP astFormatter offers the same ranges and texts.",
+  note="edit semantics taken from genlsp/format.go (whole-line ranges); astFormatter reached through an overlay-only export shim",
+  design="3/C19"),
 }
 
 PENDING = {
